@@ -274,4 +274,136 @@ theorem splitRecords_recsBytes : ∀ (rs : List Rec) (fuel : Nat), (∀ r ∈ rs
 theorem parseStream_recsBytes (rs : List Rec) (h : ∀ r ∈ rs, WF r) : parseStream (recsBytes rs) = some rs :=
   splitRecords_recsBytes rs _ h (Nat.le_refl _)
 
+/-- `BigSize::read` on a prefix that still contains the bytes it consumes -/
+theorem readBigSize_take (b : Bytes) (v k n : Nat) (h : readBigSize b = some (v, k)) (hn : k ≤ n) :
+    readBigSize (b.take n) = some (v, k) := by
+  cases b with
+  | nil => simp [readBigSize] at h
+  | cons x r =>
+    cases n with
+    | zero =>
+      -- k = 0 is impossible: every branch consumes at least one byte
+      exfalso
+      unfold readBigSize at h
+      split at h
+      · cases h
+      · split at h
+        · cases h
+        · dsimp only at h; split at h <;> cases h; omega
+      · split at h
+        · cases h
+        · dsimp only at h; split at h <;> cases h; omega
+      · split at h
+        · cases h
+        · dsimp only at h; split at h <;> cases h; omega
+      · cases h; omega
+    | succ m =>
+      rw [List.take_succ_cons]
+      unfold readBigSize at h ⊢
+      split at h
+      · cases h
+      · rename_i r' heq
+        cases heq
+        split at h
+        · cases h
+        · rename_i hlen
+          dsimp only at h
+          split at h
+          · cases h
+          · cases h
+            have hl : ¬ (r.take m).length < 8 := by simp only [List.length_take]; omega
+            have ht : (r.take m).take 8 = r.take 8 := by rw [List.take_take]; congr 1; omega
+            simp only [hl, ht, if_false]
+            simp [*]
+      · rename_i r' heq
+        cases heq
+        split at h
+        · cases h
+        · rename_i hlen
+          dsimp only at h
+          split at h
+          · cases h
+          · cases h
+            have hl : ¬ (r.take m).length < 4 := by simp only [List.length_take]; omega
+            have ht : (r.take m).take 4 = r.take 4 := by rw [List.take_take]; congr 1; omega
+            simp only [hl, ht, if_false]
+            simp [*]
+      · rename_i r' heq
+        cases heq
+        split at h
+        · cases h
+        · rename_i hlen
+          dsimp only at h
+          split at h
+          · cases h
+          · cases h
+            have hl : ¬ (r.take m).length < 2 := by simp only [List.length_take]; omega
+            have ht : (r.take m).take 2 = r.take 2 := by rw [List.take_take]; congr 1; omega
+            simp only [hl, ht, if_false]
+            simp [*]
+      · rename_i n t hFF hFE hFD heq
+        cases heq
+        split
+        · rename_i heq2; cases heq2
+        · rename_i r2 heq2; cases heq2; exact (hFF rfl).elim
+        · rename_i r2 heq2; cases heq2; exact (hFE rfl).elim
+        · rename_i r2 heq2; cases heq2; exact (hFD rfl).elim
+        · rename_i n2 t2 _ _ _ heq2
+          cases heq2
+          exact h
+
+/-- every record the parser returns is well formed -/
+theorem splitRecords_wf : ∀ (fuel : Nat) (b : Bytes) (rs : List Rec),
+    splitRecords fuel b = some rs → ∀ r ∈ rs, WF r := by
+  intro fuel
+  induction fuel with
+  | zero =>
+    intro b rs h
+    unfold splitRecords at h
+    split at h
+    · cases h; intro r hr; cases hr
+    · cases h
+  | succ n ih =>
+    intro b rs h
+    unfold splitRecords at h
+    split at h
+    · cases h; intro r hr; cases hr
+    · split at h
+      · cases h
+      · rename_i t k1 h1
+        split at h
+        · cases h
+        · rename_i len k2 h2
+          dsimp only at h
+          split at h
+          · cases h
+          · rename_i hlen
+            split at h
+            · cases h
+            · rename_i rest hrest
+              cases h
+              intro r hr
+              rcases List.mem_cons.mp hr with rfl | hr'
+              · refine ⟨t, k1, len, k2, ?_, ?_, ?_, ?_⟩
+                · exact readBigSize_take b t k1 _ h1 (by omega)
+                · show readBigSize ((b.take (k1 + k2 + len)).drop k1) = some (len, k2)
+                  rw [List.drop_take]
+                  exact readBigSize_take _ len k2 _ h2 (by omega)
+                · show (b.take (k1 + k2 + len)).length = k1 + k2 + len
+                  rw [List.length_take]; omega
+                · show b.take k1 = (b.take (k1 + k2 + len)).take k1
+                  rw [List.take_take]; congr 1; omega
+              · exact ih _ _ hrest r hr'
+
+theorem parseStream_wf (b : Bytes) (rs : List Rec) (h : parseStream b = some rs) : ∀ r ∈ rs, WF r :=
+  splitRecords_wf _ _ _ h
+
+theorem ascendingB_of_pairwise : ∀ (l : List Rec), l.Pairwise (fun a b => a.ty < b.ty) → ascendingB l = true
+  | [], _ => rfl
+  | [_], _ => rfl
+  | a :: b :: t, h => by
+    have h' := List.pairwise_cons.mp h
+    simp only [ascendingB, Bool.and_eq_true, decide_eq_true_eq]
+    exact ⟨h'.1 b (List.mem_cons_self ..), ascendingB_of_pairwise (b :: t) h'.2⟩
+
 end Ldk.OfferMirror
